@@ -237,3 +237,113 @@ Lemma F_tables_vocabulary :
   table_forall task_table (fun _ e _ => string_in e (app WORKFLOW_EXECUTION_EVENTS
                                              (app ACTION_EXECUTION_EVENTS ENGINE_OPERATION_EVENTS))) = true.
 Proof. split; vm_compute; reflexivity. Qed.
+
+(* ---- pause rows ---- *)
+
+(* while pausing, no task event takes the workflow back to an offering status *)
+Lemma F_wf_pausing_task_closed : forall e t, starts_with "task_" e = true ->
+  tbl_step wf_table S_PAUSING e = Some t -> In t [S_PAUSING; S_PAUSED; S_FAILED; S_CANCELING; S_CANCELED].
+Proof.
+  intros e t Hp H.
+  assert (T : table_forall wf_table
+                (fun s e t => negb (status_eqb s S_PAUSING && starts_with "task_" e)
+                              || status_in t [S_PAUSING; S_PAUSED; S_FAILED; S_CANCELING; S_CANCELED]) = true)
+    by (vm_compute; reflexivity).
+  pose proof (table_forall_step _ _ T _ _ _ H) as P; cbv beta in P.
+  rewrite status_eqb_refl, Hp in P; cbn [andb negb orb] in P. apply status_in_In; exact P.
+Qed.
+
+(* a pause request is accepted from every status in which tasks run: pausing while something is
+   active, paused at once when nothing is *)
+Lemma F_wf_pause_request : forall s, In s [S_RUNNING; S_RESUMING; S_PAUSING] ->
+  tbl_step wf_table s "workflow_pausing_workflow_active" = Some S_PAUSING /\
+  tbl_step wf_table s "workflow_pausing_workflow_dormant" = Some S_PAUSED /\
+  tbl_step wf_table s "workflow_paused_workflow_active" = Some S_PAUSING /\
+  tbl_step wf_table s "workflow_paused_workflow_dormant" = Some S_PAUSED.
+Proof.
+  intros s H.
+  assert (T : forallb (fun s =>
+      match tbl_step wf_table s "workflow_pausing_workflow_active", tbl_step wf_table s "workflow_pausing_workflow_dormant",
+            tbl_step wf_table s "workflow_paused_workflow_active", tbl_step wf_table s "workflow_paused_workflow_dormant" with
+      | Some a, Some b, Some c, Some d =>
+          status_eqb a S_PAUSING && status_eqb b S_PAUSED && status_eqb c S_PAUSING && status_eqb d S_PAUSED
+      | _, _, _, _ => false end) [S_RUNNING; S_RESUMING; S_PAUSING] = true) by (vm_compute; reflexivity).
+  rewrite forallb_forall in T; specialize (T _ H).
+  destruct (tbl_step wf_table s "workflow_pausing_workflow_active") as [a|]; [|discriminate].
+  destruct (tbl_step wf_table s "workflow_pausing_workflow_dormant") as [b|]; [|discriminate].
+  destruct (tbl_step wf_table s "workflow_paused_workflow_active") as [c|]; [|discriminate].
+  destruct (tbl_step wf_table s "workflow_paused_workflow_dormant") as [d|]; [|discriminate].
+  repeat (apply andb_prop in T; destruct T as [T ?]).
+  repeat match goal with H : status_eqb _ _ = true |- _ => apply status_eqb_eq in H; subst end.
+  repeat split; reflexivity.
+Qed.
+
+(* resume: from paused (and pausing) the resume requests lead to resuming / running, and a paused
+   workflow that has nothing left completes *)
+Lemma F_wf_resume_request :
+  tbl_step wf_table S_PAUSED "workflow_resuming" = Some S_RESUMING /\
+  tbl_step wf_table S_PAUSED "workflow_running" = Some S_RUNNING /\
+  tbl_step wf_table S_PAUSED "workflow_resuming_workflow_completed" = Some S_SUCCEEDED /\
+  tbl_step wf_table S_PAUSED "workflow_running_workflow_completed" = Some S_SUCCEEDED /\
+  tbl_step wf_table S_PAUSING "workflow_resuming" = Some S_RESUMING /\
+  tbl_step wf_table S_PAUSING "workflow_running" = Some S_RUNNING.
+Proof. repeat split; vm_compute; reflexivity. Qed.
+
+(* ---- the rows in which tasks run: task events never leave the expected classes ---- *)
+
+(* from running/resuming a task event leads to running, a pause-class, a cancel-class status, succeeded or failed;
+   never to resuming/requested/... *)
+Lemma F_wf_running_task_targets : forall s e t, In s [S_RUNNING; S_RESUMING] -> starts_with "task_" e = true ->
+  tbl_step wf_table s e = Some t ->
+  In t [S_RUNNING; S_PAUSING; S_PAUSED; S_CANCELING; S_CANCELED; S_SUCCEEDED; S_FAILED].
+Proof.
+  intros s e t Hs Hp H.
+  assert (T : table_forall wf_table
+                (fun s e t => negb (status_in s [S_RUNNING; S_RESUMING] && starts_with "task_" e)
+                              || status_in t [S_RUNNING; S_PAUSING; S_PAUSED; S_CANCELING; S_CANCELED; S_SUCCEEDED; S_FAILED]) = true)
+    by (vm_compute; reflexivity).
+  pose proof (table_forall_step _ _ T _ _ _ H) as P; cbv beta in P.
+  apply status_in_In in Hs. rewrite Hs, Hp in P; cbn [andb negb orb] in P. apply status_in_In; exact P.
+Qed.
+
+(* succeeded is reached only by a completed-dormant task event or the completed-resume request *)
+Lemma F_wf_succeeded_only_when_completed : forall s e, tbl_step wf_table s e = Some S_SUCCEEDED ->
+  e = "workflow_succeeded" \/ contains "_workflow_dormant_completed" e = true \/ contains "_workflow_completed" e = true.
+Proof.
+  intros s e H.
+  assert (T : table_forall wf_table
+                (fun _ e t => negb (status_eqb t S_SUCCEEDED)
+                              || String.eqb e "workflow_succeeded" || contains "_workflow_dormant_completed" e
+                              || contains "_workflow_completed" e) = true) by (vm_compute; reflexivity).
+  pose proof (table_forall_step _ _ T _ _ _ H) as P; cbv beta in P.
+  rewrite status_eqb_refl in P; cbn [negb orb] in P.
+  destruct (String.eqb e "workflow_succeeded") eqn:E1; [left; apply String.eqb_eq; exact E1|].
+  destruct (contains "_workflow_dormant_completed" e) eqn:E2; [right; left; reflexivity|].
+  cbn [orb] in P. right; right; exact P.
+Qed.
+
+(* a remediated or succeeded task event with other tasks still active ("_workflow_active") keeps the
+   workflow in the same class: running stays running, pausing stays pausing (or cancels), canceling stays *)
+Lemma F_wf_active_task_keeps_class : forall s e t, In s [S_RUNNING; S_PAUSING; S_CANCELING; S_RESUMING] ->
+  contains "_workflow_active" e = true -> starts_with "task_" e = true -> tbl_step wf_table s e = Some t ->
+  (s = S_RUNNING -> In t [S_RUNNING; S_PAUSING; S_CANCELING; S_FAILED]) /\
+  (s = S_RESUMING -> In t [S_RUNNING; S_PAUSING; S_CANCELING; S_FAILED]) /\
+  (s = S_PAUSING -> In t [S_PAUSING; S_CANCELING; S_FAILED]) /\
+  (s = S_CANCELING -> In t [S_CANCELING]).
+Proof.
+  intros s e t Hs Hc Hp H.
+  assert (T : table_forall wf_table
+     (fun s e t => negb (contains "_workflow_active" e && starts_with "task_" e)
+        || ((negb (status_in s [S_RUNNING; S_RESUMING]) || status_in t [S_RUNNING; S_PAUSING; S_CANCELING; S_FAILED])
+            && (negb (status_eqb s S_PAUSING) || status_in t [S_PAUSING; S_CANCELING; S_FAILED])
+            && (negb (status_eqb s S_CANCELING) || status_in t [S_CANCELING]))) = true)
+    by (vm_compute; reflexivity).
+  pose proof (table_forall_step _ _ T _ _ _ H) as P; cbv beta in P.
+  rewrite Hc, Hp in P; cbn [andb negb orb] in P.
+  apply andb_prop in P; destruct P as [P P3]. apply andb_prop in P; destruct P as [P1 P2].
+  repeat split; intro E; subst s.
+  - vm_compute status_in in P1 at 1. cbn [negb orb] in P1. apply status_in_In; exact P1.
+  - vm_compute status_in in P1 at 1. cbn [negb orb] in P1. apply status_in_In; exact P1.
+  - rewrite status_eqb_refl in P2; cbn [negb orb] in P2. apply status_in_In; exact P2.
+  - rewrite status_eqb_refl in P3; cbn [negb orb] in P3. apply status_in_In; exact P3.
+Qed.
